@@ -167,6 +167,13 @@ def readAbsolute (keyframe : Bool) (rest : Bytes) (ws : List Warning) : HdrResul
   | none => .truncated ws
   | some (b, rest') => tickResult (.absolute (toI32 (beVal b))) keyframe rest' ws
 
+/-- the `match flags & CHUNKMASK_TYPE` of `ChunkHeader::read` -/
+def kindOfBits (t : Nat) : DataKind :=
+  if t = CHUNKTYPE_SNAPSHOT then .snapshot
+  else if t = CHUNKTYPE_MESSAGE then .message
+  else if t = CHUNKTYPE_SNAPSHOTDELTA then .delta
+  else .unknown
+
 /-- `ChunkHeader::read` -/
 def readChunkHeader (v : Version) : Bytes → HdrResult
   | [] => .eof
@@ -185,12 +192,7 @@ def readChunkHeader (v : Version) : Bytes → HdrResult
         if legacy = 0 then readAbsolute keyframe rest []
         else tickResult (.delta legacy) keyframe rest []
     else
-      let t := flags &&& CHUNKMASK_TYPE
-      let kind : DataKind :=
-        if t = CHUNKTYPE_SNAPSHOT then .snapshot
-        else if t = CHUNKTYPE_MESSAGE then .message
-        else if t = CHUNKTYPE_SNAPSHOTDELTA then .delta
-        else .unknown
+      let kind : DataKind := kindOfBits (flags &&& CHUNKMASK_TYPE)
       let ws : List Warning := if kind = .unknown then [Warning.unknownChunkType] else []
       let s := flags &&& CHUNKMASK_SIZE
       if s = CHUNKSIZE_ONEBYTEFOLLOWS then
@@ -217,8 +219,8 @@ recomputes `out.length` at every output byte, which is quadratic when a damaged 
 to the 64 KiB capacity.  `Tw.Demo.decompressC_eq` (Proofs/Demo.lean) shows the two agree. -/
 
 /-- `Huffman.decStep` with `n = out.length` -/
-def decStepC (cap nd n : Nat) (out : Bytes) (bit : Bool) : Tw.Huffman.StepResult × Nat :=
-  let idx := if bit then (Tw.Huffman.node table nd).2 else (Tw.Huffman.node table nd).1
+def decStepC (t : Tw.Huffman.Table) (cap nd n : Nat) (out : Bytes) (bit : Bool) : Tw.Huffman.StepResult × Nat :=
+  let idx := if bit then (Tw.Huffman.node t nd).2 else (Tw.Huffman.node t nd).1
   if idx ≥ Tw.Huffman.NUM_SYMBOLS then (.cont idx out, n)
   else if idx = Tw.Huffman.EOF then (.done out, n)
   else if n ≥ cap then (.capacity, n)
@@ -228,27 +230,27 @@ inductive BitsResultC where
   | more (node n : Nat) (out : Bytes)
   | fin (r : Tw.Huffman.DecResult)
 
-def decBitsC (cap : Nat) : Nat → Nat → Bytes → List Bool → BitsResultC
+def decBitsC (t : Tw.Huffman.Table) (cap : Nat) : Nat → Nat → Bytes → List Bool → BitsResultC
   | nd, n, out, [] => .more nd n out
   | nd, n, out, b :: bs =>
-    match decStepC cap nd n out b with
-    | (.cont nd' out', n') => decBitsC cap nd' n' out' bs
+    match decStepC t cap nd n out b with
+    | (.cont nd' out', n') => decBitsC t cap nd' n' out' bs
     | (.done out', _) => .fin (.ok out'.reverse)
     | (.capacity, _) => .fin .capacity
 
-def decZerosC (cap : Nat) : Nat → Nat → Nat → Bytes → Tw.Huffman.DecResult
+def decZerosC (t : Tw.Huffman.Table) (cap : Nat) : Nat → Nat → Nat → Bytes → Tw.Huffman.DecResult
   | 0, _, _, _ => .diverge
   | fuel + 1, nd, n, out =>
-    match decStepC cap nd n out false with
-    | (.cont nd' out', n') => decZerosC cap fuel nd' n' out'
+    match decStepC t cap nd n out false with
+    | (.cont nd' out', n') => decZerosC t cap fuel nd' n' out'
     | (.done out', _) => .ok out'.reverse
     | (.capacity, _) => .capacity
 
-/-- `HUFFMAN.decompress` into a buffer of capacity `cap` -/
-def decompressC (input : Bytes) (cap : Nat) : Tw.Huffman.DecResult :=
-  match decBitsC cap Tw.Huffman.ROOT_IDX 0 [] (input.flatMap Tw.Huffman.byteBits) with
+/-- `Huffman::decompress` into a buffer of capacity `cap` -/
+def decompressC (t : Tw.Huffman.Table) (input : Bytes) (cap : Nat) : Tw.Huffman.DecResult :=
+  match decBitsC t cap Tw.Huffman.ROOT_IDX 0 [] (input.flatMap Tw.Huffman.byteBits) with
   | .fin r => r
-  | .more nd n out => decZerosC cap (Tw.Huffman.zeroFuel cap) nd n out
+  | .more nd n out => decZerosC t cap (Tw.Huffman.zeroFuel cap) nd n out
 
 /-- `i32::from_le_bytes` -/
 def leWord (a b c d : UInt8) : Int := toI32 (leVal4 a b c d)
@@ -533,7 +535,7 @@ def Reader.readChunk (r : Reader) : Reader × ReadResult × List Warning :=
     match takeN size rest with
     | none => (r, .error .unexpectedEof, ws)
     | some (raw, rest') =>
-      match decompressC raw MAX_SNAPSHOT_SIZE with
+      match decompressC table raw MAX_SNAPSHOT_SIZE with
       | .capacity => (r, .error .huffmanCapacity, ws)
       | .diverge => (r, .error .diverge, ws)
       | .ok out =>
